@@ -235,7 +235,7 @@ def _sig(prog):
     def walk(n):
         op = n[0]
         if op == "leaf":
-            return [f"{n[1]}@{meprogs.LEAVES[n[1]][0]}"]
+            return [f"{n[1]}@{meprogs.LEAVES.get(n[1], ('?',))[0]}"]
         if op in ("join", "chain"):
             return walk(n[1]) + walk(n[2]) + [op]
         s = op
